@@ -339,8 +339,8 @@ for n in (1, 3, 8, 24):
         attrs=['#[kani::unwind(10)]'], flags=['nolc'], cost=15, macro='p')
     add('k1_loops', 'clone_fn_%d' % n, 'clone_fn_h::<%d>()' % n, props=['C08', 'C03'], tier='q' if n in (3, 8) else 't', kind='bounded', bound=BL,
         attrs=['#[kani::unwind(10)]'], flags=['nolc'], cost=30, macro='p')
-add('k1_loops', 'drop_closure_unbounded', 'drop_closure_unbounded_h()', props=['C03', 'C05'], tier='q', cost=5, macro='p')
-add('k1_loops', 'clone_fn_unbounded', 'clone_fn_unbounded_h()', props=['C08', 'C03', 'C05'], tier='q', cost=5, macro='p')
+add('k1_loops', 'drop_closure_unbounded', 'drop_closure_unbounded_h()', props=['C03', 'C05'], tier='q', cost=5, macro='p', attrs=['#[kani::unwind(4)]'])
+add('k1_loops', 'clone_fn_unbounded', 'clone_fn_unbounded_h()', props=['C08', 'C03', 'C05'], tier='q', cost=5, macro='p', attrs=['#[kani::unwind(4)]'])
 add('k1_loops', 'nop_clone', 'nop_clone_h()', props=['C08'], tier='q', cost=2, macro='p')
 B3 = 'real Stack<16> vector of u32 (capacity 4), every state and index in that bound, real copy_bytes unwound'
 add('k1_loops', 'k3_insert_u8', 'k3_insert_h::<u8, 6, 6>()', props=['C01', 'C05'], tier='t', kind='bounded', bound='real Stack<6> vector of u8 (capacity 6), every state and index in that bound, real copy_bytes unwound', attrs=['#[kani::unwind(20)]'], flags=['nolc'], cost=40, macro='p')
